@@ -4,13 +4,155 @@ import H264.RefNal
 compiler replaces the model function by the fast one; the kernel has checked that they are the same function. -/
 namespace Rbsp
 
-/-- `fill_buf` without computing the loop fuel when bytes are already buffered -/
+/-- `scan` over the first `k` bytes of a list without materialising `take k` -/
+def scanLim (chunkLen : Nat) : Nat → PS → Nat → List UInt8 → ScanRes
+  | 0, st, i, _ => .done st i
+  | _+1, st, i, [] => .done st i
+  | k+1, .start, i, b :: bs => if b = 0 then scanLim chunkLen k .oneZero (i+1) bs else scanLim chunkLen k .start (i+1) bs
+  | k+1, .oneZero, i, b :: bs => if b = 0 then scanLim chunkLen k .twoZero (i+1) bs else scanLim chunkLen k .start (i+1) bs
+  | k+1, .twoZero, i, b :: bs =>
+      if b = 3 then .done .three i
+      else if b = 0 then .invalid .twoZero i
+      else scanLim chunkLen k .start (i+1) bs
+  | _+1, .skip n, _, _ :: _ =>
+      let m := min chunkLen n
+      .consumeInner m (if n - m = 0 then .start else .skip (n - m))
+  | _+1, .three, _, _ :: _ => .consumeInner 1 .postThree
+  | k+1, .postThree, i, b :: bs =>
+      if b = 0 then scanLim chunkLen k .oneZero (i+1) bs
+      else if b ≤ 3 then scanLim chunkLen k .start (i+1) bs
+      else .invalid .postThree i
+
+theorem scanLim_eq (cl k : Nat) (st : PS) (i : Nat) (l : List UInt8) :
+    scanLim cl k st i l = scan cl st i (l.take k) := by
+  induction k generalizing st i l with
+  | zero => cases st <;> simp [scanLim, scan]
+  | succ k ih =>
+    cases l with
+    | nil => cases st <;> simp [scanLim, scan]
+    | cons b bs =>
+      cases st <;> simp only [scanLim, scan, List.take_succ_cons, ih]
+
+/-- the chunk length matters to `scan` only through `min chunkLen n` in the skipping state -/
+theorem scan_chunkLen (a b : Nat) (st : PS) (i : Nat) (l : List UInt8)
+    (h : ∀ n, st = .skip n → min a n = min b n) : scan a st i l = scan b st i l := by
+  induction l generalizing st i with
+  | nil => cases st <;> simp [scan]
+  | cons x xs ih =>
+    cases st with
+    | skip n => simp only [scan]; rw [h n rfl]
+    | start => simp only [scan]; rw [ih .oneZero (i+1) (by intro n hn; cases hn), ih .start (i+1) (by intro n hn; cases hn)]
+    | oneZero => simp only [scan]; rw [ih .twoZero (i+1) (by intro n hn; cases hn), ih .start (i+1) (by intro n hn; cases hn)]
+    | twoZero => simp only [scan]; rw [ih .start (i+1) (by intro n hn; cases hn)]
+    | three => simp only [scan]
+    | postThree => simp only [scan]; rw [ih .oneZero (i+1) (by intro n hn; cases hn), ih .start (i+1) (by intro n hn; cases hn)]
+
+/-- `try_fill_buf_slow` without `chunk.length` and without copying the window -/
+def tryFillFast (r : BR) : BR × Except IoKind Bool :=
+  match r.inner.fillBuf with
+  | .error k => (r, .error k)
+  | .ok chunk =>
+    if chunk = [] then (r, .ok false) else
+    let cl := match r.st with | .skip n => (chunk.take n).length | _ => 0
+    match scanLim cl (r.maxFill - r.i) r.st r.i (chunk.drop r.i) with
+    | .done st i => ({ r with st := st, i := i }, .ok true)
+    | .consumeInner k st => ({ r with inner := r.inner.consume k, st := st }, .ok true)
+    | .invalid st i => ({ r with st := st, i := i }, .error .invalidData)
+
+theorem tryFill_eq_fast' (r : BR) : tryFill r = tryFillFast r := by
+  unfold tryFill tryFillFast
+  cases hf : r.inner.fillBuf with
+  | error k => rfl
+  | ok chunk =>
+    simp only
+    by_cases hc : chunk = []
+    · simp [hc]
+    · simp only [hc, ↓reduceIte]
+      have htodo : (chunk.take (min chunk.length r.maxFill)).drop r.i = (chunk.drop r.i).take (r.maxFill - r.i) := by
+        rw [List.take_drop]
+        have : List.take (min chunk.length r.maxFill) chunk = List.take r.maxFill chunk := by
+          by_cases hm : chunk.length ≤ r.maxFill
+          · rw [Nat.min_eq_left hm, List.take_of_length_le (Nat.le_refl _), List.take_of_length_le hm]
+          · rw [Nat.min_eq_right (by omega)]
+        rw [this]
+        by_cases hi : r.i ≤ r.maxFill
+        · have e : r.i + (r.maxFill - r.i) = r.maxFill := by omega
+          rw [e]
+        · rw [List.drop_eq_nil_of_le (by simp only [List.length_take]; omega),
+              List.drop_eq_nil_of_le (by simp only [List.length_take]; omega)]
+      rw [htodo, scanLim_eq]
+      have hs := scan_chunkLen chunk.length (match r.st with | .skip n => (chunk.take n).length | _ => 0) r.st r.i
+        ((chunk.drop r.i).take (r.maxFill - r.i)) (by
+          intro n hn
+          rw [hn]
+          simp only [List.length_take]
+          omega)
+      rw [hs]
+      rfl
+
+@[csimp] theorem tryFill_eq_fast : @tryFill = @tryFillFast := by
+  funext r; exact tryFill_eq_fast' r
+
+end Rbsp
+
+namespace Rbsp
+
+/-- the fill loop with "out of fuel" made visible -/
+def fillLoopF : Nat → BR → Option (BR × Except IoKind Unit)
+  | 0, _ => none
+  | fuel+1, r =>
+    if r.i ≠ 0 then some (r, .ok ()) else
+    match tryFill r with
+    | (r', .error k) => some (r', .error k)
+    | (r', .ok false) => some (r', .ok ())
+    | (r', .ok true) => fillLoopF fuel r'
+
+/-- when the loop finishes within `f` steps, any larger fuel gives the same result -/
+theorem fillLoopF_some (f : Nat) (r : BR) (x : BR × Except IoKind Unit) (h : fillLoopF f r = some x) (g : Nat) (hg : f ≤ g) :
+    fillLoop g r = x := by
+  induction f generalizing r g with
+  | zero => simp [fillLoopF] at h
+  | succ f ih =>
+    obtain ⟨g', rfl⟩ : ∃ g', g = g' + 1 := ⟨g - 1, by omega⟩
+    unfold fillLoopF at h
+    unfold fillLoop
+    by_cases hi : r.i ≠ 0
+    · rw [if_pos hi] at h ⊢; exact (Option.some.inj h)
+    · rw [if_neg hi] at h ⊢
+      cases ht : tryFill r with
+      | mk r' res =>
+        rw [ht] at h
+        cases res with
+        | error k => exact (Option.some.inj h)
+        | ok b =>
+          cases b with
+          | false => exact (Option.some.inj h)
+          | true => exact ih r' h g' (by omega)
+
+/-- a fuel that costs O(1) to compute and never exceeds `fuelFor` -/
+def fastFuel (r : BR) : Nat := 2 * (r.inner.cur.take 3).length + 3
+
+theorem fastFuel_le (r : BR) : fastFuel r ≤ fuelFor r := by
+  unfold fastFuel fuelFor Chunked.rest
+  have : (r.inner.cur.take 3).length ≤ r.inner.cur.length := by simp [List.length_take]; omega
+  simp only [List.length_append]
+  omega
+
+/-- `fill_buf` without computing the loop fuel (the length of everything still to come) unless the loop really needs
+more than a handful of steps -/
 def fillBufFast (r : BR) : BR × Except IoKind (List UInt8) :=
   if r.i ≠ 0 then
     match r.inner.fillBuf with
     | .error k => (r, .error k)
     | .ok chunk => (r, .ok (chunk.take r.i))
-  else fillBuf r
+  else
+    match fillLoopF (fastFuel r) r with
+    | some (r', .error k) => (r', .error k)
+    | some (r', .ok ()) =>
+      (match r'.inner.fillBuf with
+       | .error k => (r', .error k)
+       | .ok chunk => (r', .ok (chunk.take r'.i)))
+    | none => fillBuf r
 
 @[csimp] theorem fillBuf_eq_fast : @fillBuf = @fillBufFast := by
   funext r
@@ -22,6 +164,16 @@ def fillBufFast (r : BR) : BR × Except IoKind (List UInt8) :=
     rw [hf, fillLoop, if_pos hi]
     rfl
   · rw [if_neg hi]
+    cases hF : fillLoopF (fastFuel r) r with
+    | none => rfl
+    | some x =>
+      have hx := fillLoopF_some (fastFuel r) r x hF (fuelFor r) (fastFuel_le r)
+      unfold fillBuf
+      rw [hx]
+      obtain ⟨r', res⟩ := x
+      cases res with
+      | error k => rfl
+      | ok u => cases u; rfl
 
 def readFast (r : BR) (n : Nat) : BR × Except IoKind (List UInt8) :=
   match fillBufFast r with
